@@ -29,10 +29,11 @@ Theorem C06_witness_at_leading_wires : forall is_r1cs w x,
   init_vals F one is_r1cs w x = if is_r1cs then nth_error (one :: w) x else nth_error w x.
 Proof. exact (init_vals_witness F one). Qed.
 
-(* Failure with an "unsatisfied constraint" class: the instruction at which the run stopped is
+(* Failure with a constraint-error class (unsatisfied R1C / gate, boolean gate, zero coefficient
+   of the unsolved wire with a non-vanishing rest): the instruction at which the run stopped is
    violated by every completion of the values determined so far. *)
-Theorem C06_run_err_violated : forall orc prog v j,
-  run orc v prog = Err EUnsat j \/ run orc v prog = Err EBool j ->
+Theorem C06_run_err_violated : forall orc prog v k j,
+  run orc v prog = Err k j -> k = EUnsat \/ k = EDivZero \/ k = EBool ->
   exists pre i ins post v1, prog = pre ++ (i, ins) :: post /\ run orc v pre = Ok v1 /\
      forall v', extends F v1 v' -> ~ holds v' ins.
 Proof. exact (run_err_violated F zero one add mul sub opp div inv Fth eq_dec). Qed.
@@ -60,17 +61,18 @@ Theorem C06_solve_ok_sat_F47 : forall orc is_r1cs nbw instrs order w v,
   (forall i ins, In i order -> nth_error instrs i = Some ins -> holds F47 zero47 one47 add47 mul47 opp47 v ins).
 Proof. exact (C06_solve_ok_sat F47 zero47 one47 add47 mul47 sub47 opp47 div47 inv47 F47_field eq_dec47). Qed.
 
-(* Known finding F5: for the "division by 0" error class of the sparse solver the failure clause
-   is false of the faithful model (and of the code): a satisfiable gate is reported as failing. *)
-Theorem C06_divzero_failure_clause_refuted :
-  exists v ins v', step47 (fun _ _ _ => None) 0 v ins = Err EDivZero 0 /\
-                   extends BinNums.Z v v' /\ holds47 v' ins.
-Proof. exact sparse_divzero_not_violated_refuted. Qed.
+(* F5 (fixed): the former counterexample DivUnchecked(0,0) on the sparse solver now solves *)
+Theorem C06_divunchecked_0_0_solves :
+  match step47 (fun _ _ _ => None) 0 f5_vals f5_gate with
+  | Ok v => v 2 = Some BinNums.Z0
+  | _ => False
+  end.
+Proof. exact f5_divunchecked_0_0_solves. Qed.
 
 Print Assumptions C06_solve_ok_sat.
 Print Assumptions C06_witness_at_leading_wires.
 Print Assumptions C06_run_err_violated.
 Print Assumptions C06_lro_copy.
 Print Assumptions C06_lro_public.
-Print Assumptions C06_divzero_failure_clause_refuted.
+Print Assumptions C06_divunchecked_0_0_solves.
 Print Assumptions C06_solve_ok_sat_F47.
